@@ -163,7 +163,11 @@ func (n *jnode) canon(b *strings.Builder) {
 	case "bool":
 		b.WriteString("b:" + strconv.FormatBool(n.i != 0))
 	case "time":
-		b.WriteString("t:" + strconv.FormatInt(n.t.UnixNano(), 10))
+		if y := n.t.Year(); y < 0 || y > 9999 {
+			b.WriteString("t:any") // outside RFC 3339's four-digit years: any JSON string will do
+		} else {
+			b.WriteString("t:" + strconv.FormatInt(n.t.Unix(), 10) + "." + strconv.Itoa(n.t.Nanosecond()))
+		}
 	case "raw":
 		b.WriteString("n:" + n.s)
 	}
@@ -277,11 +281,15 @@ func parseTok(dec *json.Decoder, tok json.Token, exp *jnode, b *strings.Builder)
 		}
 	case string:
 		if exp != nil && exp.kind == "time" {
-			tm, err := time.Parse(time.RFC3339Nano, t)
-			if err != nil {
-				return fmt.Errorf("time does not parse as RFC 3339: %v", err)
+			if y := exp.t.Year(); y < 0 || y > 9999 {
+				b.WriteString("t:any")
+			} else {
+				tm, err := time.Parse(time.RFC3339Nano, t)
+				if err != nil {
+					return fmt.Errorf("time does not parse as RFC 3339: %v", err)
+				}
+				b.WriteString("t:" + strconv.FormatInt(tm.Unix(), 10) + "." + strconv.Itoa(tm.Nanosecond()))
 			}
-			b.WriteString("t:" + strconv.FormatInt(tm.UnixNano(), 10))
 		} else if exp != nil && exp.kind == "str" && !utf8.ValidString(exp.s) {
 			b.WriteString("s:?")
 		} else {
@@ -362,6 +370,12 @@ var c15Scalars = []*jnode{
 	{kind: "f64", f: 1.5}, {kind: "f64", f: 1e21}, {kind: "f64", f: 5e-324}, {kind: "f64", f: -0.0}, {kind: "f32", f: float64(float32(0.1))},
 	{kind: "str", s: ""}, {kind: "str", s: "x"}, {kind: "str", s: ",\n"}, {kind: "bool", i: 1}, {kind: "bool", i: 0},
 	{kind: "time", t: time.Date(2020, 1, 2, 3, 4, 5, 6, time.UTC)}, {kind: "time", t: time.Date(1, 1, 1, 0, 0, 0, 0, time.UTC)}, {kind: "raw", s: "12"},
+	// the edges of the time formatter: sub-microsecond digits, the limits of four-digit years, zones
+	{kind: "time", t: time.Date(2021, 6, 7, 8, 9, 10, 123456789, time.UTC)}, {kind: "time", t: time.Date(2021, 6, 7, 8, 9, 10, 1, time.UTC)},
+	{kind: "time", t: time.Date(0, 1, 1, 0, 0, 0, 0, time.UTC)}, {kind: "time", t: time.Date(9999, 12, 31, 23, 59, 59, 999999999, time.UTC)},
+	{kind: "time", t: time.Date(10000, 1, 1, 0, 0, 0, 0, time.UTC)}, {kind: "time", t: time.Date(-1, 6, 1, 0, 0, 0, 5, time.UTC)},
+	{kind: "time", t: time.Date(2020, 1, 2, 3, 4, 5, 0, time.FixedZone("e", 14*3600))}, {kind: "time", t: time.Date(2020, 1, 2, 3, 4, 5, 0, time.FixedZone("w", -(23*3600+59*60)))},
+	{kind: "time", t: time.Date(1969, 12, 31, 23, 59, 59, 999000000, time.FixedZone("h", 1800))},
 }
 var c15Keys = []string{"", "a", "\"", "a\nb", "\\", " ", ",\n"}
 
